@@ -3,7 +3,11 @@ import CJ.Drv.Ingest
 /-! Driver for the ingest model with stored objects (C07, sequences of messages of one or several sessions).
 
 `c07s|<cfg>|<wireC>|<wireC>|…` — the messages are ingested in order into one empty registry.
-* cfg as for `c07`.
+* cfg as for `c07`, optionally followed by a sixth field `<covert blocklist>;<covert allowlist>` (each a list of
+  `t<hex of text>` sep ' '): the configured strings of `covert_blocklist_subnets` / `covert_allowlist_subnets`.  When it is
+  there the model COMPUTES the covert verdict of every message whose covert string it can decide without a resolver
+  (`CJ.IngestText.covertOfLit`: address literals and strings refused before the lookup) and ignores the verdict on the
+  line for those; for host names the verdict on the line stays in force.
 * wireC: `G` (undecodable) or `<wire as for c07>,<covert>,<resolved>`: the covert address of the message and the
   covert policy's answer for it, each as `x<hex of the text>`; resolved = `-` when the policy refused.  The
   model never interprets the text.  The covert verdict among the oracles of the wire must be the verdict on this
@@ -33,6 +37,35 @@ def parseWireC (s : String) : Option WireC :=
       | .garbage => none
       | .msg _ o => if o.covertOk == res.isSome then some { w := w, cv := { raw := raw, resolved := res } } else none
 
+/-- `x<hex of the UTF-8 text>` ↦ the text -/
+def decodeX (s : String) : Option String :=
+  match s.toList with
+  | 'x' :: h => do
+    let b ← parseHex (String.ofList h)
+    String.fromUTF8? (ByteArray.mk b.toArray)
+  | _ => none
+
+def encodeX (s : String) : String := "x" ++ toHex s.toUTF8.toList
+
+def parsePolicy (s : String) : Option (CJ.Covert.Policy CJ.NetAddr.IPNet Unit) :=
+  match s.splitOn ";" with
+  | [b, a] => do
+    CJ.IngestText.covertPolicy (← (fields b " ").mapM CJ.Drv.Ingest.parseText) (← (fields a " ").mapM CJ.Drv.Ingest.parseText)
+  | _ => none
+
+/-- the covert verdict of the message as the model computes it (literal hosts); otherwise the one on the line -/
+def computeCovert (pol : CJ.Covert.Policy CJ.NetAddr.IPNet Unit) (w : WireC) : Option WireC :=
+  match w.w with
+  | .garbage => some w
+  | .msg m o => do
+    let raw ← decodeX w.cv.raw
+    match CJ.IngestText.litWire pol m o raw with
+    | some lw =>
+      match lw.w with
+      | .msg m' o' => some { w := .msg m' o', cv := { raw := w.cv.raw, resolved := lw.cv.resolved.map encodeX } }
+      | .garbage => none
+    | none => some w
+
 def showObj (k : CJ.Registry.Key) (obj : Obj) : String :=
   s!"{k.1}/{k.2}={obj.covert}:{obj.reg.source}:{showBool obj.reg.prescanned}:{toHex obj.reg.registrant}:{obj.reg.port}:{obj.reg.proto}:{obj.reg.transport}:{showBool obj.reg.v4Support}"
 
@@ -47,8 +80,15 @@ def keysOf (c : Cfg) : Wire → List CJ.Registry.Key
 def handle (args : List String) : Option String :=
   match args with
   | cfg :: wires => do
-    let c ← CJ.Drv.Ingest.parseCfg cfg
-    let ws ← wires.mapM parseWireC
+    let cf := cfg.splitOn ","
+    let c ← CJ.Drv.Ingest.parseCfgFields (cf.take 5)
+    let ws0 ← wires.mapM parseWireC
+    let ws ← (match cf.drop 5 with
+      | [] => some ws0
+      | [p] => do
+        let pol ← parsePolicy p
+        ws0.mapM (computeCovert pol)
+      | _ => none)
     let (_, _, outs) := ws.foldl (fun (acc : StC × List CJ.Registry.Key × List String) w =>
       let (x, keys, outs) := acc
       let (_, base) := CJ.Drv.Ingest.answer c x.reg w.w
